@@ -2,6 +2,7 @@ import DM.Lemmas.RSClean
 import DM.Props.C06
 import DM.Props.C07
 import DM.Props.C08
+import DM.Lemmas.AsciiRT
 /-!
 # C01 — the symbol-level half of the round trip, for all sizes and all contents
 
@@ -160,6 +161,41 @@ example : (match encodeError 0 [71, 112, 112] with
         | .ok (d, s) => d == [71, 112, 112] && s == 0
         | .error _ => false
       | none => false
+    | .error _ => false) = true := by decide +kernel
+
+/-! ## The data-level half for ASCII encodation
+
+`ascii_roundtrip`: whenever the encoder model, following the plan "ASCII until the end" (the plan
+the optimiser returns when only ASCII is enabled, and for every message it decides to keep in
+ASCII), produces the data codewords of a symbol, the data decoder model returns exactly the
+message — for every message, every symbol list and whatever amount of padding the chosen symbol
+needs (digit pairs, upper shift, the pad codeword and the 253-state randomised pads included). -/
+
+theorem ascii_roundtrip (list : List Sym) (body cw : List Nat) (sym : Sym) (hb : ∀ b ∈ body, b < 256)
+    (h : DM.Model.Enc.run list [] body [(0, .ascii)] = .ok (cw, sym)) :
+    DM.Model.Dec.decodeData cw = .ok body ∧ cw.length = dataCw sym := by
+  obtain ⟨hle, hcw⟩ := DM.Lemmas.AsciiRT.run_ascii list body cw sym h
+  refine ⟨?_, ?_⟩
+  · rw [hcw]
+    exact DM.Lemmas.AsciiRT.decodeData_ascii body hb (dataCw sym) hle
+  · rw [hcw]
+    split
+    · simp; omega
+    · rename_i hne
+      have : ∀ p n, (DM.Lemmas.AsciiRT.padsFrom p n).length = n := by
+        intro p n
+        induction n generalizing p with
+        | zero => rfl
+        | succ n ih => simp [DM.Lemmas.AsciiRT.padsFrom, ih]
+      simp [this]
+      omega
+
+/-- Non-vacuity: "A1234é" fills the 5-codeword symbol exactly, "A1234éé" needs padding; the runs succeed. -/
+example : (match DM.Model.Enc.run (symbolList (List.range 30)) [] [65, 49, 50, 51, 52, 233] [(0, .ascii)] with
+    | .ok (cw, sym) => cw == [66, 142, 164, 235, 106] && sym == 1
+    | .error _ => false) = true := by decide +kernel
+example : (match DM.Model.Enc.run (symbolList (List.range 30)) [] [65, 49, 50, 51, 52, 233, 233] [(0, .ascii)] with
+    | .ok (cw, sym) => cw == [66, 142, 164, 235, 106, 235, 106, 129] && sym == 3
     | .error _ => false) = true := by decide +kernel
 
 end DM.Props.C01
